@@ -19,7 +19,8 @@ for v in json.load(open(ROOT + "/selftest/silent.json")):
             if m: res[m.group(1)] = int(m.group(2))
         viol = [k for k, x in res.items() if x == 1]
         inc = [k for k, x in res.items() if x == 3]
-        print("%-24s violations=%s inconclusive=%s%s" % (v["id"], viol, inc, "" if res else "  BUILD FAILED: " + r.stderr[-300:]))
+        unest = sorted({m.group(1) for m in re.finditer(r"obligation (\S+) \[\w+\]: NOT ESTABLISHED", r.stdout)})
+        print("%-24s violations=%s (of which unestablished obligations: %s) no-facts=%s%s" % (v["id"], viol, unest, inc, "" if res else "  BUILD FAILED: " + r.stderr[-300:]))
         for l in r.stdout.splitlines():
             if l.startswith("  obligation") or l.startswith("INCONCLUSIVE"):
                 print("      ", l.strip()[:230])
